@@ -268,6 +268,8 @@ class Pipeline:
         rec = {"name": name, "src": src, "tie": "ok", "accepted": name in fn}
         if answer.startswith("unmodelled"):
             rec["tie"] = "unmodelled"
+            if name in err:
+                rec["refusal"] = err[name][0]   # the crash oracle still needs the exception class
             return rec
         if answer.startswith("bad-"):
             raise core.Infra(f"driver could not read the program: {answer}: {src}")
@@ -383,8 +385,13 @@ def process_batch(task: dict) -> dict:
                                                                 env=gen.lean_env(m)))
                 st_idx.append(m)
         for m, a in zip(st_idx, pipe.drv.ask([l.replace("stable ", "fragment ", 1) for l in st_lines])):
-            # which refinement theorem covers the accepted program (Lean decides: straightLine / ifLine / forLine / nestLine)
+            # which refinement theorem covers the accepted program (Lean decides: straightLine / ifLine / forLine /
+            # nestLine; `attrval` = an attribute parameter is read as a value, `attrs` = one is re-bound under control
+            # flow, `none` = outside every proved fragment: break below top level, literal assignment beside control flow)
             stats["refinement_theorem_" + a] += 1
+            stats["accepted_programs_classified"] += 1
+            if a in ("straight", "if", "loop", "nested"):
+                stats["accepted_programs_in_a_proved_fragment"] += 1
         for m, a in zip(st_idx, pipe.drv.ask(st_lines)):
             stats["liveness_fixpoints_checked"] += 1
             if a != "true":
@@ -665,6 +672,11 @@ def main(run: core.Run) -> None:
     extra += [gen.mixed_opset_program(run.rng, f"m{k}") for k in range(run.size(24, 160))]
     nests = [gen.shrinking_nest_program(run.rng, f"t{k}") for k in range(run.size(30, 240))]
     extra += [gen.name_collision_program(run.rng, f"u{k}") for k in range(run.size(40, 300))]
+    # round-3 classes: keyword inputs, static `if` on a name of the surroundings, break with else, first output
+    extra += [gen.keyword_input_program(run.rng, f"k{k}") for k in range(run.size(16, 120))]
+    extra += [gen.const_if_program(run.rng, f"s{k}") for k in range(run.size(16, 120))]
+    extra += [gen.break_else_program(run.rng, f"b{k}") for k in range(run.size(4, 30))]
+    extra += [gen.first_output_program(run.rng, f"o{k}") for k in range(run.size(3, 20))]
     seen_src = set()
     extra = [m for m in extra if not (m["src"] in seen_src or seen_src.add(m["src"]))]
     for k in range(0, len(extra), 20):
@@ -698,7 +710,9 @@ REQUIRED_STATS_C01 = ["refinement_theorem_straight", "refinement_theorem_if", "r
                       "refused_TranslationError", "corpus_programs"]
 REQUIRED_FEATURES_C01 = ["for", "while", "for-break", "while-break", "closure", "closure-shadow", "closure-global",
                          "closure-name-also-local", "inner-trip-count-shrinks", "mixed-opset-old",
-                         "user-names-like-generated", "loop-back-edge-only-variable"]
+                         "user-names-like-generated", "loop-back-edge-only-variable", "literal-loop-bound", "attr-ref",
+                         "keyword-input", "static-if", "static-if-in-loop", "break-else", "single-target-multi-output",
+                         "callee-calls-inside-control-flow"]
 
 
 def require_coverage(stats, features, need_stats, need_features):
